@@ -18,6 +18,7 @@ import (
 type vRes struct {
 	Op    string `json:"op"`
 	N     int    `json:"n"`
+	NReal string `json:"nreal,omitempty"`
 	Ok    bool   `json:"ok"`
 	Val   []int  `json:"val"`
 	Len   int    `json:"len"`
@@ -195,11 +196,15 @@ func TestVerifReaderTrace(t *testing.T) {
 			case "uint":
 				n = []int{1, 2, 4, 8}[rng.Intn(4)]
 			case "read", "peek":
-				switch rng.Intn(4) {
+				switch rng.Intn(5) {
 				case 0:
 					n = r.Len() // exactly what is left
 				case 1:
 					n = r.Len() + 1 + rng.Intn(3)
+				case 2:
+					// lengths beyond 16 and 32 bits, some of them small again when truncated to 16 or 32 bits
+					big := []int{1 << 16, 1<<16 + 1, 1 << 31, 1<<31 + 2, 1 << 32, 1<<32 + 1, 2<<32 + 3, 1<<32 + r.Len(), 1<<48 + 1, 1 << 62, 1<<63 - 1}
+					n = big[rng.Intn(len(big))]
 				default:
 					n = rng.Intn(r.Len() + 2)
 				}
@@ -207,6 +212,11 @@ func TestVerifReaderTrace(t *testing.T) {
 				n = 2
 			}
 			res := vApply(r, op, n)
+			if n > 1<<30 {
+				// TLC integers are 32-bit: the trace carries 2^30 for every longer length (the specification only
+				// asks whether n exceeds what is left) and the real argument as text
+				res.N, res.NReal = 1<<30, fmt.Sprint(n)
+			}
 			res.Same = true
 			enc.Encode(res)
 		}
